@@ -15,7 +15,15 @@ def sample8Ok (r : Nat) : Bool :=
 def sample16Ok (r : Nat) : Bool :=
   match crate.p16e1.rand.Distribution.sample (UInt32.ofNat r) with
   | .ok p => Sweep.bits16 p < 0x4000
+  | .error e => e == .assume
+/-- `(from_bits(s) - ONE)` for a draw `s` of the first generator call: a pattern in `[0, 0x4000_0000)` -/
+def sample32SubOk (s : Nat) : Bool :=
+  match crate.p32e2.P32E2.from_bits (UInt32.ofNat s) with
   | .error _ => false
+  | .ok y =>
+    match crate.p32e2.ops.P32E2.Sub.sub y crate.p32e2.P32E2.ONE with
+    | .error _ => false
+    | .ok p => decide (Sweep.bits32 p < 0x40000000)
 def sample32Ok (r1 : Nat) : Bool :=
   Sweep.all1 4 fun r2 =>
     match crate.p32e2.rand.Distribution.sample (UInt32.ofNat r1) (UInt32.ofNat r2) with
